@@ -31,7 +31,7 @@ use crate::{
 // ---------------------------------------------------------------------------------------------------------------
 // (a) op histories, Ristretto (the instantiation that owns the process-wide cells)
 
-pub const OPS: [&str; 19] = [
+pub const OPS: [&str; 20] = [
     "params(2,1)",
     "params(2,2)",
     "params(4,1)",
@@ -51,6 +51,7 @@ pub const OPS: [&str; 19] = [
     "recover6-other-seed",
     "params(2,16)",
     "prove-refused-promise",
+    "batch-mixed-sizes-two-defects",
 ];
 
 fn digest(parts: &[&[u8]]) -> Vec<u8> {
@@ -147,6 +148,38 @@ fn run_op<P: G>(op: &str, kept: &mut Vec<RangeParameters<P>>) -> Vec<u8> {
                 Ok(p) => [b"PROOF:".to_vec(), P::to_bytes(&p)].concat(),
                 Err(e) => format!("ERR:{}", crate::api::err_name(&e)).into_bytes(),
             }
+        },
+        "batch-mixed-sizes-two-defects" => {
+            // members of two aggregation sizes, each with its own defect (an undecodable A in the single, an undecodable B in
+            // the aggregate): WHICH error comes back is part of the result
+            let wa = Wit::default_for(&cfg_a);
+            let ba = build::<P>(&cfg_a, &wa).honest();
+            let cfg_c = Cfg::new(2, 2, 2, 1);
+            let wc = Wit::default_for(&cfg_c);
+            let bc = build::<P>(&cfg_c, &wc).honest();
+            let pa = lib_prove_honest(&ba, &CTX_A, &mut HRng::chacha(4));
+            let pc = lib_prove_honest(&bc, &CTX_A, &mut HRng::chacha(5));
+            let mut ra = ref_proof_of(&pa).unwrap();
+            ra.a = [0xffu8; 32];
+            let mut rc = ref_proof_of(&pc).unwrap();
+            rc.b = [0xfeu8; 32];
+            let bad_a = P::from_bytes(&refbp::ref_encode(&ra)).unwrap();
+            let bad_c = P::from_bytes(&refbp::ref_encode(&rc)).unwrap();
+            let mut out = Vec::new();
+            for order in [0, 1] {
+                let (sts, proofs) = if order == 0 {
+                    (vec![ba.statement.clone(), bc.statement.clone()], vec![P::proof_clone(&bad_a), P::proof_clone(&bad_c)])
+                } else {
+                    (vec![bc.statement.clone(), ba.statement.clone()], vec![P::proof_clone(&bad_c), P::proof_clone(&bad_a)])
+                };
+                let mut ts = vec![CTX_A.transcript(), CTX_A.transcript()];
+                let r = P::verify(&mut ts, &sts, &proofs, VerifyAction::VerifyOnly);
+                out.extend(match r {
+                    Ok(_) => b"OK;".to_vec(),
+                    Err(e) => format!("{:?};", e).into_bytes(),
+                });
+            }
+            out
         },
         "prove-refused-promise" => {
             // a proving attempt that is refused late (promise above the value): what it leaves behind on this thread or in
@@ -722,7 +755,7 @@ fn source_scan() -> Value {
 }
 
 pub fn run(rep: &mut Report) {
-    rep.rule = "(a) every sequence over the 19-op alphabet {a prove refused for its promise, build params for 16 parties, degree-6 seeded prove, recovery (right / other seed) from a degree-6 proof made elsewhere, build params x3, prove A/B, prove with a witness that does not open the commitment, verify valid/invalid, seeded recover, batch of two, batch abandoned at \
+    rep.rule = "(a) every sequence over the 20-op alphabet {a batch of two aggregation sizes with two different defects (the full error text is the result), a prove refused for its promise, build params for 16 parties, degree-6 seeded prove, recovery (right / other seed) from a degree-6 proof made elsewhere, build params x3, prove A/B, prove with a witness that does not open the commitment, verify valid/invalid, seeded recover, batch of two, batch abandoned at \
                 its second member (wrong round count / undecodable point), pedersen gens, drop-all} of length <= 3 (thorough 4), one fresh process per sequence, each op's serialised result against \
                 its result alone in a fresh process (and a second fresh process); (b) every pair (thorough: also triples) of ops {prove A, \
                 prove B, verify valid, verify invalid, clone+drop params, build other capacity} on threads sharing one parameter object (plus a 160-member batch with two different defects racing a short verification, one preemption), \
